@@ -158,6 +158,9 @@ def cases(ctx):
         elif i % 60 == 17:
             c = lopsided_case(rng)
             ctx.count("class:frequent_category_stored_explicitly")
+        elif i % 60 == 43:
+            c = gen.lopsided_cube_case(rng)
+            ctx.count("class:frequent_category_stored_explicitly")
         else:
             c = gen.cube_case(rng, n=(2000 if rng.random() < 0.3 else gen.pick(rng, [255, 256, 257, 65535, 65536, 65537]))
                               if rng.random() < 0.03 else None)
